@@ -47,7 +47,7 @@ FIRST_MISSED = {  # caught only after the extension named here (recorded while t
  "C01-m7": "the C01 CLI commit takes a drawn message (CR / CRLF line ends among them) and the stored commit object must decode to it; kept against the tree it was written for (54b0103), the later rewrite of the commit reader (94d2f19) replaced the lines it changes",
  "C01-m8": "one `hash-object` call over several files (reverse order, one file twice) in the C01 CLI layer",
  "C03-m7": "hostile branch names built as `../`^k + a real file of the repository (HEAD, index, an object file by symbolic id, a branch, a log); was caught by C10 before",
- "C03-m8": "`FreeBranch` prefers names related to existing ones (blank at the end, other case, prefixes); was caught by C10 before",
+ "C03-m8": "not caught by C03 within the quick budget (the HEAD reader trims blanks: needs branches `w` and `w ` and the deletion of the current one); caught by C10, whose name generator now prefers names related to existing ones",
  "C04-m8": "path components that START with the byte 0xFF (`\\xffz`, `\\xff.go`)",
  "C05-m7": "message lines that look like commit header fields and quote ids of existing trees / commits (`tree {{tree#n}}`), drawn for a fifth of the commits of EVERY profile; patch carried over to the rewritten commit reader (patch.ported.diff)",
  "C06-m7": "more reset / commit steps in the index profile (the `%` directory names were there already; detection was a matter of chance)",
@@ -69,6 +69,9 @@ FIRST_MISSED = {  # caught only after the extension named here (recorded while t
  "C20-m7": "config keys and sections with brackets, `#`, `;`",
  "C20-m8": "awkward identities (`dev -> ops`, `a > b`, `Ada Tester #2`, …) and the C20 oracle demands that commit succeeds with a usable identity",
  "C02-m7": "identities that contain ` #` / ` ;` or start with them",
+ "C10-m8": "not caught by C10 — a journal defect (records with an empty message become unreadable, `reset HEAD@{n}` counts wrongly) caught by C11",
+ "C12-m7": "not caught by C12 — the local-over-global clause is checked by C20, which catches it (a `config` call that repeats the value in effect in the other scope is dropped)",
+ "C12-m8": "C12 CLI cases are now short histories of commits made under different offsets and read by ONE `log` process (the API layer saw it, but a per-case replay in a fresh process cannot reproduce cross-commit state)",
  "C10-m6": "the violation was found but could not be replayed (the step carried a commit id of the generating run): steps now name commits symbolically (`@commit#n`)",
 }
 print("### D.1 Changes written by independent sub-agents (`seeded/<ID>-mN/`)\n")
